@@ -46,6 +46,14 @@ def numeric_cases(chk, MX, n):
             if multi:
                 st["position"] = [rng.uniform(-20, 20), k * rng.uniform(12, 30), rng.uniform(-10, 10)]
             acs.append(("ac%d" % k, ac, st, gen.gen_controls(rng, ac)))
+        if built == 1:
+            # (enumerated) the warning threshold for near-impingement raised far above its default: it decides when a warning is printed,
+            # not which trailing legs induce velocity (control points of a wing without joints lie close to the legs of their own section)
+            sd.setdefault("solver", {})["impingement_threshold"] = 0.05
+            ac_ = gen.simple_wing_aircraft(N=5, reid=False)
+            del ac_["wings"]["h_stab"], ac_["wings"]["v_stab"]
+            acs = [("ac0", ac_, {k_: v_ for k_, v_ in acs[0][2].items() if k_ != "position"}, {"aileron": 2.0})]
+            chk.count("impingement_threshold=raised")
         try:
             sc = gen.build_scene(MX, sd, acs)
         except Exception as e:
